@@ -498,3 +498,76 @@ pub fn self_check() -> Result<(), String> {
     }
     Ok(())
 }
+
+fn esc_text(t: &str, out: &mut String) {
+    for c in t.chars() {
+        match c {
+            '&' => out.push_str("&amp;"),
+            '<' => out.push_str("&lt;"),
+            '>' => out.push_str("&gt;"),
+            '\r' => out.push_str("&#13;"),
+            c => out.push(c),
+        }
+    }
+}
+
+fn esc_attr(t: &str, out: &mut String) {
+    for c in t.chars() {
+        match c {
+            '&' => out.push_str("&amp;"),
+            '<' => out.push_str("&lt;"),
+            '"' => out.push_str("&quot;"),
+            '\n' => out.push_str("&#10;"),
+            '\t' => out.push_str("&#9;"),
+            '\r' => out.push_str("&#13;"),
+            c => out.push(c),
+        }
+    }
+}
+
+fn write_elem(e: &Elem, out: &mut String) {
+    out.push('<');
+    out.push_str(&e.qname());
+    for (p, u) in &e.ns_decls {
+        if p.is_empty() {
+            out.push_str(" xmlns=\"");
+        } else {
+            out.push_str(&format!(" xmlns:{p}=\""));
+        }
+        esc_attr(u, out);
+        out.push('"');
+    }
+    for a in &e.attrs {
+        out.push(' ');
+        if !a.prefix.is_empty() {
+            out.push_str(&a.prefix);
+            out.push(':');
+        }
+        out.push_str(&a.local);
+        out.push_str("=\"");
+        esc_attr(&a.value, out);
+        out.push('"');
+    }
+    if e.children.is_empty() {
+        out.push_str("/>");
+        return;
+    }
+    out.push('>');
+    for c in &e.children {
+        match c {
+            Node::Elem(x) => write_elem(x, out),
+            Node::Text(t) => esc_text(t, out),
+        }
+    }
+    out.push_str("</");
+    out.push_str(&e.qname());
+    out.push('>');
+}
+
+/// Serialise a tree (used to produce mutated documents from a parsed one).
+pub fn serialize(root: &Elem) -> String {
+    let mut out = String::from("<?xml version=\"1.0\" encoding=\"UTF-8\"?>\n");
+    write_elem(root, &mut out);
+    out.push('\n');
+    out
+}
